@@ -330,6 +330,9 @@ fn render(s: &[bool]) -> String {
 
 /// `ohv c18-child <port>`: a real server. Commands on stdin: `release <id>`. Events on stdout.
 pub fn child_main(port: u16) -> ! {
+    unsafe {
+        libc::prctl(libc::PR_SET_PDEATHSIG, libc::SIGKILL);
+    }
     use ohkami::prelude::*;
     use std::collections::HashSet;
     use std::io::{BufRead, Write};
@@ -353,6 +356,8 @@ pub fn child_main(port: u16) -> ! {
                 RELEASED.get().unwrap().lock().unwrap().insert(id);
             }
         }
+        // stdin closed: the harness process is gone (killed by its supervisor, say) — do not outlive it
+        std::process::exit(3);
     });
     async fn block(id: u32) -> String {
         say(&format!("start {id}"));
@@ -656,6 +661,13 @@ impl Property for C18 {
     }
     fn hang_secs(&self) -> u64 {
         120
+    }
+    fn shrink_budget(&self) -> (u32, u32) {
+        // a failing child-process scenario waits out a 10–12 s limit on every evaluation
+        (30, 20)
+    }
+    fn fail_fast(&self) -> bool {
+        true
     }
     fn strategy(&self, _tier: Tier) -> BoxedStrategy<Case> {
         prop_oneof![
